@@ -8,8 +8,8 @@ set_option linter.unusedVariables false
 
 structure HookInv (s : St PS) : Prop where
   nid : s.ent.nid = s.nextId
-  fresh : ∀ q ∈ s.ent.hookOf, q.1 < s.nextId
-  bal : ∀ h, hookRuns s.ent.obs h + hld s.ent.procs h ≤ dead (s.heap.map (·.id)) s.nextId s.ent.hookOf h
+  bal : ∀ h, hookRuns s.ent.obs h + hld s.ent.procs h + lateHeld s.ent.late h
+      ≤ dead (s.heap.map (·.id)) s.nextId s.ent.hookOf h + s.ent.lateAtt.count h
 
 theorem countP_filter_count (t : List (Nat × Nat)) (pA pB : Nat × Nat → Bool) (mid h : Nat)
     (h1 : ∀ q, q.1 = mid → q.2 = h → pA q = false ∧ pB q = true)
@@ -75,10 +75,10 @@ theorem dead_mono (H H' : List Nat) (n0 n1 : Nat) (hookOf : List (Nat × Nat)) (
 
 theorem HookInv_erase (s s' : St PS) (m : Ev) (hk : HookInv s)
     (hh : s'.heap = s.heap.erase m) (he : s'.ent = s.ent) (hn : s'.nextId = s.nextId) : HookInv s' := by
-  refine ⟨by rw [he, hn]; exact hk.nid, by rw [he, hn]; exact hk.fresh, ?_⟩
+  refine ⟨by rw [he, hn]; exact hk.nid, ?_⟩
   intro h
   rw [he, hh, hn]
-  refine Nat.le_trans (hk.bal h) (dead_mono _ _ _ _ _ _ ?_)
+  refine Nat.le_trans (hk.bal h) (Nat.add_le_add_right (dead_mono _ _ _ _ _ _ ?_) _)
   intro q _ hq hlt
   refine ⟨fun hc => hq ?_, hlt⟩
   obtain ⟨e, hemem, hid⟩ := List.mem_map.mp hc
@@ -98,11 +98,12 @@ theorem step_hookInv (s : St PS) (m : Ev) (inv : Inv s) (hk : HookInv s) (hm : m
         have hfr := inv.fresh_heap m hm
         have h0 : HK ((s.heap.erase m).map (·.id)) s.nextId
             (fun h => ((s.ent.hookOf.filter (fun p => p.1 == m.id)).map (·.2)).count h) ({ ps := s.ent } : Eff) := by
-          refine ⟨by simp [hk.nid], by intro q hq; rw [hk.nid]; exact hk.fresh q hq, ?_⟩
+          refine ⟨by simp [hk.nid], ?_⟩
           intro h
           have h1 := dead_pop s.heap m s.nextId hm inv.nodup hfr s.ent.hookOf h
           have h2 := hk.bal h
-          show hookRuns s.ent.obs h + hld s.ent.procs h + _ ≤ dead _ s.nextId s.ent.hookOf h
+          show hookRuns s.ent.obs h + hld s.ent.procs h + lateHeld s.ent.late h + _
+            ≤ dead _ s.nextId s.ent.hookOf h + s.ent.lateAtt.count h
           omega
         have hr := procEff_HK s.ent m.time m h0
         generalize hrr : procEff s.ent m.time m = r at hr heq
@@ -110,20 +111,19 @@ theorem step_hookInv (s : St PS) (m : Ev) (inv : Inv s) (hk : HookInv s) (hm : m
           show (procHandle s.ent m.time m).ent = _; rw [heq]
         have hspecs : (procMachine.handle s.ent m.time m).specs = r.specs := by
           show (procHandle s.ent m.time m).specs = _; rw [heq]
-        refine ⟨?_, ?_, ?_⟩
+        refine ⟨?_, ?_⟩
         · show (procMachine.handle s.ent m.time m).ent.nid = s.nextId + (procMachine.handle s.ent m.time m).specs.length
           rw [hent, hspecs]; exact hr.nid
-        · show ∀ q ∈ (procMachine.handle s.ent m.time m).ent.hookOf,
-            q.1 < s.nextId + (procMachine.handle s.ent m.time m).specs.length
-          rw [hent, hspecs]; intro q hq; have := hr.fresh q hq; have := hr.nid; omega
         · intro h
           show hookRuns (procMachine.handle s.ent m.time m).ent.obs h + hld (procMachine.handle s.ent m.time m).ent.procs h
+              + lateHeld (procMachine.handle s.ent m.time m).ent.late h
             ≤ dead ((s.heap.erase m ++ mkEvents s.nextId m.time (procMachine.handle s.ent m.time m).specs).map (·.id))
                 (s.nextId + (procMachine.handle s.ent m.time m).specs.length)
                 (procMachine.handle s.ent m.time m).ent.hookOf h
+              + (procMachine.handle s.ent m.time m).ent.lateAtt.count h
           rw [hent, hspecs]
           have hb := hr.bal h
-          refine Nat.le_trans (by omega) (dead_mono _ _ _ _ _ _ ?_)
+          refine Nat.le_trans (by omega) (Nat.add_le_add_right (dead_mono _ _ _ _ _ _ ?_) _)
           intro q _ hq hlt
           refine ⟨?_, by omega⟩
           intro hc
@@ -176,26 +176,16 @@ theorem initState_inv (p : Program) (gateCont : Bool) : Inv (p.initState gateCon
   Inv_congr _ _ (init_inv (p.initState gateCont).ent 0 (p.pre.map (·.1))) rfl rfl rfl rfl rfl rfl
 
 theorem initState_hookInv (p : Program) (gateCont : Bool) : HookInv (p.initState gateCont) := by
-  refine ⟨?_, ?_, ?_⟩
+  refine ⟨?_, ?_⟩
   · show (p.pre.map (·.1)).length = (p.pre.map (·.1)).length; rfl
-  · intro q hq
-    have hq' : q ∈ ((List.range (p.pre.map (·.1)).length).zip p.pre).filterMap
-        (fun q => if q.2.2.1 = 0 then none else some (q.1, q.2.2.1)) := hq
-    show q.1 < (p.pre.map (·.1)).length
-    obtain ⟨x, hx, hfx⟩ := List.mem_filterMap.mp hq'
-    have hr := (List.of_mem_zip hx).1
-    split at hfx
-    · simp at hfx
-    · simp only [Option.some.injEq] at hfx
-      subst hfx
-      simpa using hr
   · intro h
-    show hookRuns [] h + hld [] h ≤ _
-    simp [hookRuns, hld]
+    show hookRuns [] h + hld [] h + lateHeld [] h ≤ _
+    simp [hookRuns, hld, lateHeld]
 
 /-- from any state satisfying the engine invariant and the hook accounting -/
 theorem hooks_le_attached (endT : Option Nat) (n : Nat) (s : St PS) (inv : Inv s) (hk : HookInv s) (h : Nat) :
-    hookRuns (run procMachine endT n s).ent.obs h ≤ att (run procMachine endT n s).ent.hookOf h := by
+    hookRuns (run procMachine endT n s).ent.obs h
+      ≤ att (run procMachine endT n s).ent.hookOf h + (run procMachine endT n s).ent.lateAtt.count h := by
   have ⟨_, hk'⟩ := run_hookInv endT n s inv hk
   have := hk'.bal h
   have := dead_le_att ((run procMachine endT n s).heap.map (·.id)) (run procMachine endT n s).nextId
